@@ -94,7 +94,10 @@ def gen_table(rng, nR, nS, nC, sparsity="dense", scale=None, shuffle=False):
         rng.shuffle(rows)
         cols = list(rows)
         rng.shuffle(ycols)
+    import math as _m
+    xcanon = [_m.fsum(Z[i]) + _m.fsum(Y[i]) for i in range(N)]   # gross output: part of the input data
     t = dict(
+        x=[xcanon[i] for i in rows],
         regions=sorted(regions), sectors=sorted(sectors), fdcats=sorted(cats),
         row_labels=[list(inds[i]) for i in rows], col_labels=[list(inds[j]) for j in cols],
         ycol_labels=[list(fds[c]) for c in ycols],
@@ -114,7 +117,7 @@ def table_sorted(t):
     yi = {tuple(l): k for k, l in enumerate(t["ycol_labels"])}
     Z = [[t["Z"][ri[a]][ci[b]] for b in inds] for a in inds]
     Y = [[t["Y"][ri[a]][yi[b]] for b in fds] for a in inds]
-    x = [sum(Z[i]) + sum(Y[i]) for i in range(len(inds))]
+    x = [t["x"][ri[a]] for a in inds] if t.get("x") is not None else [sum(Z[i]) + sum(Y[i]) for i in range(len(inds))]
     col = [sum(Z[i][j] for i in range(len(inds))) for j in range(len(inds))]
     va = [max(0.0, x[j] - col[j]) for j in range(len(inds))]
     return inds, fds, Z, Y, x, va
